@@ -25,7 +25,7 @@ META = {
         "solver seam = module global graphslam.graph.spsolve; if it is not called the fault sub-product is skipped and evidence says solver_seam_active=false",
         "fault answers are restricted to what a sparse direct solver can produce (NaN vector for singular systems, garbage in coupled rows, an exception); a solver that returns non-zero for decoupled identity rows is not modelled",
     ],
-    "required_classes": ["copied_graph", "fixed_pose_reassigned_between_calls", "nonunit_quaternion_vertices", "numeric_twin_edges", "shared_pose_object", "all_fixed", "none_fixed", "isolated_fixed_vertex", "fixed_landmark", "singular_natural", "several_fixed", "fault:nan", "fault:raise", "fault:garbage", "history", "diverged_or_nonfinite", "ffp_true", "ffp_false", "reduced_step_checked", "reduced_wls_checked"],
+    "required_classes": ["inplace_position_edge", "copied_graph", "fixed_pose_reassigned_between_calls", "nonunit_quaternion_vertices", "numeric_twin_edges", "shared_pose_object", "all_fixed", "none_fixed", "isolated_fixed_vertex", "fixed_landmark", "singular_natural", "several_fixed", "fault:nan", "fault:raise", "fault:garbage", "history", "diverged_or_nonfinite", "ffp_true", "ffp_false", "reduced_step_checked", "reduced_wls_checked"],
     "bounds": {"quick": "A: n=2 m<=2, n=3 m<=2, max_iter in {1,3}; S: 5 solver calls, <=2 deviations; H: 2 calls", "thorough": "A: n=2 m<=3, n=3 m<=2 x 3 vertex orders, max_iter in {1,2,3,5,20}; H: 3 calls"},
 }
 
@@ -541,4 +541,30 @@ def _eval_numeric(case):
             ratio = max(ratio, d / tol)
             if d > tol:
                 msgs.append("numerical-Jacobian edges, fixed=%r: free vertex id %r = %r, reduced Gauss-Newton step of the analytic graph gives %r (|diff| %.3g > %.3g)" % (eff, before[i][0], after[i][2], exp, d, tol))
-    return msgs, {"outcome": "numeric:" + out, "classes": ["numeric_twin_edges"], "calls": 1, "ref_compared": compared, "ratio": ratio, "nontrivial": compared == 1}
+    # a user-defined unary edge that finishes its error computation IN the array handed out by pose.position
+    # (err = pose.position; err -= z), attached to every FIXED vertex: whatever such an edge does to its scratch array,
+    # a fixed pose stays bit-identical
+    class _InPlacePositionPrior(I.BaseEdge):
+        def is_valid(self):
+            return self._is_valid()
+
+        def calc_error(self):
+            err = self.vertices[0].pose.position
+            err -= np.asarray(self.estimate)[: len(err)]
+            return np.asarray(err, dtype=float)
+
+    g3, v3, e3 = GB.build(spec, with_graph=False)
+    for v, f in zip(v3, eff):
+        if f:
+            d_ = len(np.asarray(v.pose.position))
+            e3.append(_InPlacePositionPrior([v.id], np.eye(d_), np.array([0.75, -0.5, 0.25][:d_])))
+    before3 = GB.snapshot(v3)
+    out3 = "returned"
+    try:
+        g3 = I.Graph(e3, v3)
+        g3.calc_chi2()
+        GB.optimize(g3, max_iter=2, fix_first_pose=False)
+    except Exception as ex:
+        out3 = "raised:" + type(ex).__name__
+    _check_fixed(msgs, before3, GB.snapshot(v3), eff, "optimize(max_iter=2) with a unary edge that works in place on pose.position [%s]" % out3)
+    return msgs, {"outcome": "numeric:" + out, "classes": ["numeric_twin_edges", "inplace_position_edge"], "calls": 2, "ref_compared": compared, "ratio": ratio, "nontrivial": compared == 1}
